@@ -48,7 +48,7 @@ func runLate(c LateCase) ev.Verdict {
 
 	timeout := time.Duration(c.TimeoutMS) * time.Millisecond
 
-	srv := &sim.NCServer{Hello: sim.HelloSpec{Caps: caps, SessionID: "8", Layout: "pretty"}.Render(), Version: c.Version}
+	srv := &sim.NCServer{Hello: sim.HelloSpec{Caps: append(append([]string{}, caps...), sim.StdCaps...), SessionID: "8", Layout: "pretty"}.Render(), Version: c.Version}
 	srv.OnRequest = func(r sim.NCRequest) []sim.NCAction {
 		return []sim.NCAction{{Payload: fmt.Sprintf(`<rpc-reply xmlns="%s" message-id="%s"><ok/></rpc-reply>`, sim.BaseNS, r.MessageID), After: timeout / 2, TrailLF: true}}
 	}
